@@ -12,7 +12,7 @@ import (
 
 var c19FaultKinds = []string{
 	"name-bad-first-char", "name-bad-inner-char", "name-multibyte-bad", "name-space-inside",
-	"header-missing-trailing-at", "header-text-after-atat", "header-plain-text-first-line",
+	"header-missing-trailing-at", "header-text-after-atat", "header-plain-text-first-line", "header-short",
 	"meta-unknown-type", "meta-duplicate-same-line", "meta-duplicate-later-line", "meta-duplicate-later-group",
 	"meta-missing-var", "meta-missing-type", "meta-missing-name-after-comma", "meta-non-identifier", "meta-trailing-junk",
 	"meta-cut-short-at-end-of-section",
@@ -114,6 +114,13 @@ func c19PatchAlt(r *rand.Rand, kind string, alt *[]string) (text string, line in
 			case "header-text-after-atat":
 				header = "@@ x"
 				line, cols = len(lines)+1, []int{1}
+			case "header-short":
+				// header lines too short to hold a name: a lone '@', '@' and white space, three of them
+				header = []string{"@", "@ ", "@\t", "@@@", "@x", "@\u00e9"}[r.Intn(6)]
+				line, cols = len(lines)+1, []int{1}
+				if header == "@@@" {
+					cols = []int{1, 2} // a change named "@": the name is the offending token
+				}
 			case "header-plain-text-first-line":
 				// plain text where the first header is expected
 				lines = append(lines, "foo(bar)")
